@@ -197,7 +197,8 @@ class C18(FsProp):
             if c["cmd"] != "rename":
                 c["cwd_mode"] = "elsewhere" if k % 3 == 0 else "metadir"
         if tier != "thorough":
-            out = [c for k, c in enumerate(out) if c["cmd"] in ("rename", "info") or k % 2 == 0]
+            out = [c for k, c in enumerate(out) if c["cmd"] in ("rename", "info") or k % 2 == 0
+                   or (c.get("pre") == ["-v"] and c.get("damage"))]      # verbose runs on damaged content are always kept
         return out
 
     def corruptions(self, recs):
